@@ -209,7 +209,14 @@ def gen_wrap(ctx, n):
                         plain({'text': lines})))
         out.append(case('wrap:implicit-void', 'div>hr*', ['<div>'] + sum([['<hr>', ['T', l], '</hr>'] for l in nb], []) + ['</div>'],
                         plain({'text': lines})))
+        # the receiving element's own inline text ends in a tabstop field: the line is still appended after it
+        out.append(case('wrap:implicit-after-field', 'ul>li{Item: ${1:x}}*',
+                        ['<ul>'] + sum([['<li>', ['T', 'Item: x' + l], '</li>'] for l in nb], []) + ['</ul>'], plain({'text': lines})))
+        out.append(case('wrap:implicit-after-field', 'ul>li{${1}}*',
+                        ['<ul>'] + sum([['<li>', ['T', l], '</li>'] for l in nb], []) + ['</ul>'], plain({'text': lines})))
         whole = '\n'.join(lines).strip()
+        if whole and '\n' not in whole:
+            out.append(case('wrap:plain-after-field', 'div>p{Item: ${1:x}}', ['<div><p>', ['T', 'Item: x' + whole], '</p></div>'], plain({'text': lines})))
         out.append(case('wrap:plain', 'ul>li', ['<ul><li>', ['T', whole] if whole else '', '</li></ul>'], plain({'text': lines})))
     for _ in range(n):
         roots, lines = g.rand_wrap_case(rng)
